@@ -37,9 +37,9 @@ STEMS = ["main", "util", "x y", "mod.test", "readme", "b", "a", "gen", "data.gen
 def healthy(path, name):
     ext = path.rsplit(".", 1)[-1]
     if ext == "md":
-        return '\n[//]: # (<block name="%s" line-count="<1">)\n\nword\n\n[//]: # (</block>)\n' % name
+        return '\n[//]: # (<block name="%s" line-count="<1">)\n\nword\n\nmore\n\n[//]: # (</block>)\n' % name
     o = OPENER[ext]
-    return '%s <block name="%s" line-count="<1">\nword\n%s </block>\n' % (o, name, o)
+    return '%s <block name="%s" line-count="<1">\nword\nmore\n%s </block>\n' % (o, name, o)
 
 
 def poisoned(path, r, utf8_only=False):
@@ -160,7 +160,10 @@ def one_case(ctx, r, desc):
                 full = os.path.join(root, p)
                 data = open(full, "rb").read()
                 if p in scope:
-                    data = data.replace(b"\nword\n", b"\nword\nword two\n", 1)
+                    if r.random() < 0.4:
+                        data = data.replace(b"\nmore\n", b"\n", 1)        # a deletion-only change (with -U0: hunks with nothing on the new side)
+                    else:
+                        data = data.replace(b"\nword\n", b"\nword\nword two\n", 1)
                 else:
                     data = data + b"appended\n"
                 with open(full, "wb") as f:
